@@ -1,8 +1,8 @@
 // ================= span vocabulary and closure stand-ins: COPY of contracts/rt_spans/unit.rs.tpl =================
 // (that directory has no includable file; the text between the two rulers of rt_spans -- `pos_le`, `contains`,
 //  `node_lo/node_hi`, `secs_sorted`, `nodes_sorted`, `max_end_*`, `lemma_max_*`, the verified stand-ins for
-//  `.iter().map(..).max()` / `.first()`, `child_ok`, `covers`, `tight` -- is reproduced verbatim so that
-//  `node_of_child` carries the SAME contract here as in rt_spans.)
+//  `.iter().map(..).max()` / `.first()`, `child_ok`, `covers`, `tight` -- is reproduced verbatim by
+//  sync_from_rt_spans.py so that `node_of_child` is judged with the SAME vocabulary here as in rt_spans.)
 // ---------------- specification vocabulary (from the property text) ----------------
 /// (chrom, base) positions are ordered lexicographically
 spec fn pos_le(a: (u32, u32), b: (u32, u32)) -> bool { a.0 < b.0 || (a.0 == b.0 && a.1 <= b.1) }
@@ -131,6 +131,26 @@ fn first_child(v: &Vec<RTreeNode>) -> (r: Option<&RTreeNode>)
 {
     if v.len() == 0 { None } else { Some(&v[0]) }
 }
+/// `X.iter().max_by_key(|e| e.FIELD)` (not used by the code today): ASSUMED std contract -- an element whose key is
+/// maximal (the last such element), None on an empty slice.  Present so that an edit using it is judged: a maximum
+/// over the BASE alone is not the maximum over (chrom, base).
+#[verifier::external_body] fn max_by_key_sections_end(v: &Vec<Section>) -> (r: Option<&Section>)
+    ensures v@.len() == 0 ==> r is None,
+        v@.len() > 0 ==> r is Some && v@.contains(*r->Some_0) && forall|i: int| 0 <= i < v@.len() ==> (#[trigger] v@[i]).end <= r->Some_0.end,
+{ unimplemented!() }
+#[verifier::external_body] fn max_by_key_children_end_base(v: &Vec<RTreeNode>) -> (r: Option<&RTreeNode>)
+    ensures v@.len() == 0 ==> r is None,
+        v@.len() > 0 ==> r is Some && v@.contains(*r->Some_0) && forall|i: int| 0 <= i < v@.len() ==> (#[trigger] v@[i]).end_base <= r->Some_0.end_base,
+{ unimplemented!() }
+/// any other key: some element, nothing else known
+#[verifier::external_body] fn max_by_key_sections_other(v: &Vec<Section>) -> (r: Option<&Section>)
+    ensures v@.len() > 0 ==> r is Some && v@.contains(*r->Some_0),
+{ unimplemented!() }
+#[verifier::external_body] fn max_by_key_children_other(v: &Vec<RTreeNode>) -> (r: Option<&RTreeNode>)
+    ensures v@.len() > 0 ==> r is Some && v@.contains(*r->Some_0),
+{ unimplemented!() }
+/// `None.unwrap()`
+fn unwrap_none_pair() -> (r: (u32, u32)) requires false { (0, 0) }
 #[verifier::external_body] fn last_section(v: &Vec<Section>) -> (r: Option<&Section>) { unimplemented!() }
 #[verifier::external_body] fn last_child(v: &Vec<RTreeNode>) -> (r: Option<&RTreeNode>) { unimplemented!() }
 
